@@ -16,7 +16,7 @@ MOD_HEAD = ('use super::*;\nuse crate::std;\nuse crate::filetime;\nuse crate::li
 # gains `Tracked(w)`; a new call site introduced by a change is therefore threaded, not a lost anchor.
 WORLD_CALLEES = [
     'std :: fs :: remove_file', 'std :: fs :: symlink_metadata', 'std :: fs :: metadata', 'std :: fs :: set_permissions',
-    'std :: fs :: rename', 'std :: fs :: hard_link', 'std :: fs :: create_dir_all', 'std :: fs :: read_dir', 'std :: fs :: File :: open',
+    'std :: fs :: rename', 'std :: fs :: hard_link', 'std :: fs :: create_dir_all', 'std :: fs :: create_dir', 'std :: fs :: remove_dir', 'std :: fs :: remove_dir_all', 'std :: fs :: copy', 'std :: fs :: read_dir', 'std :: fs :: File :: open',
     'File :: open', '. metadata', 'filetime :: set_file_times', 'filetime :: set_file_atime', 'filetime :: set_file_handle_times',
     'FileTime :: now', 'std :: time :: SystemTime :: now', 'SystemTime :: now',
     'move_to_back_of_list', 'set_read_only', 'ensure_file_removed', 'ensure_file_touched', 'raw_cache :: ensure_file_touched',
@@ -86,7 +86,7 @@ pub open spec fn source_ready(w: World, from: PathV, to: PathV) -> bool {
     &&& w.owned.contains(from) && !w.in_cache_namespace(from) && !w.under_ro(from) && from != to
     &&& w.files.contains_key(from) ==> {
         &&& w.supplied.contains((base_name(to), w.inode_at(from).content))
-        &&& (w.must_sync ==> w.inode_at(from).synced)
+        &&& (w.must_sync ==> w.inode_at(from).synced && !w.inode_at(from).flush_failed)
     }
 }
 
@@ -237,6 +237,7 @@ pub proof fn lemma_stamped_unread(ino: Inode, t: int, gran: int)
              'old(w).solo ==> (r.is_err() ==> final(w).dirs == old(w).dirs && (final(w).hard_faults > old(w).hard_faults || !old(w).files.contains_key(pv(from)) '
              '|| !old(w).dirs.contains(parent(pv(to)))))'),
             ('C01 C03 C19:publishing-never-changes-the-bytes-of-any-file', 'bytes_kept(*old(w), *final(w))'),
+            ('C10:no-directory-scan-follows-the-publication', 'final(w).published > old(w).published ==> final(w).pub_listed == final(w).listed'),
             ('C18 C02:on-error-either-nothing-or-exactly-the-publication-happened',
              'r.is_err() ==> attempt_effect(*old(w), *final(w), pv(from), pv(to))'),
             ('C18 C02:failed-publication-leaves-entries-alone',
@@ -280,6 +281,7 @@ pub proof fn lemma_stamped_unread(ino: Inode, t: int, gran: int)
              'old(w).solo ==> (r.is_err() ==> final(w).dirs == old(w).dirs && (final(w).hard_faults > old(w).hard_faults || !old(w).files.contains_key(pv(from)) '
              '|| !old(w).dirs.contains(parent(pv(to)))))'),
             ('C01 C03 C19:publishing-never-changes-the-bytes-of-any-file', 'bytes_kept(*old(w), *final(w))'),
+            ('C10:no-directory-scan-follows-the-publication', 'final(w).published > old(w).published ==> final(w).pub_listed == final(w).listed'),
             ('C18 C02:on-error-either-nothing-or-exactly-the-publication-happened',
              'r.is_err() ==> attempt_effect(*old(w), *final(w), pv(from), pv(to))'),
             ('C18 C02:failed-publication-leaves-entries-alone',
@@ -439,7 +441,7 @@ pub open spec fn records_ok(cache: Seq<CachedFile>, w: World, dir: PathV) -> boo
 }
 ''')
 
-    cf = u.under_contract(u.item('src/raw_cache.rs', ['fn collect_cached_files']), ['C07', 'C17', 'C05', 'C06', 'C18', 'C15', 'C02'])
+    cf = u.under_contract(u.item('src/raw_cache.rs', ['fn collect_cached_files']), ['C07', 'C17', 'C05', 'C06', 'C18', 'C15', 'C02', 'C16'])
     cf.air = 'raw_cache::collect_cached_files'
     cf.add_param(W)
     cf.add_arg('std :: fs :: read_dir', TW)
@@ -455,7 +457,7 @@ pub open spec fn records_ok(cache: Seq<CachedFile>, w: World, dir: PathV) -> boo
         ('', 'dir == pv(cache_dir) && kw_it.dir() == dir && listing_of(l0, *old(w), dir) && l0.len() < u64::MAX'),
         ('C07:scan-position', '0 <= k <= l0.len() && kw_it.rem() == l0.skip(k) && cache@.len() <= count <= k'),
         ('C06:two-calls-per-directory-item', 'w.listed == old(w).listed + k && w.steps <= old(w).steps + 2 * (2 + 2 * k) && w.opens == old(w).opens + 1'),
-        ('C07 C17:every-record-is-a-listed-regular-file-with-its-times', 'records_ok(cache@, *old(w), dir)'),
+        ('C07 C17 C16:every-record-is-a-listed-regular-file-with-its-times', 'records_ok(cache@, *old(w), dir)'),
         ('C07:records-come-from-the-scanned-prefix', 'from_prefix(cache@, l0, k)'),
         ('C07:scanned-prefix-is-complete-when-nothing-failed',
          'w.hard_faults == old(w).hard_faults ==> prefix_complete(cache@, l0, k, *old(w), dir)'),
@@ -467,7 +469,7 @@ pub open spec fn records_ok(cache: Seq<CachedFile>, w: World, dir: PathV) -> boo
     cf.insert_after('count -= 1 ;', '\n                proof { lemma_skip_item(cache@, l0, k, *old(w), dir, w.hard_faults == old(w).hard_faults); }')
     cf.insert_before('cache . push', 'let ghost c0 = cache@;\n                ')
     cf.insert_after('if let Ok ( entry ) = maybe_entry {', '\n            proof { assert(entry.name() == l0[k - 1].unwrap() && entry.dir() == dir); }')
-    cf.insert_after('Some ( b\'.\' ) ) ;', '\n            proof { assert(is_dotfile == (entry.name()[0] == 0x2e)); }')
+    cf.insert_after_stmt('let is_dotfile =', '\n            proof { assert(is_dotfile == (entry.name()[0] == 0x2e)); }')
     cf.insert_after_stmt('cache . push (',
                     '\n                proof { lemma_push_record(c0, cache@.last(), l0, k, *old(w), dir, w.hard_faults == old(w).hard_faults); '
                     'assert(cache@ == c0.push(cache@.last())); }')
@@ -478,7 +480,7 @@ pub open spec fn records_ok(cache: Seq<CachedFile>, w: World, dir: PathV) -> boo
             INV, BOOK,
             ('C15 C07:listing-changes-nothing', 'final(w).same_fs(*old(w)) && final(w).published == old(w).published && final(w).now == old(w).now'),
             ('C06:two-calls-per-directory-item', 'final(w).steps <= old(w).steps + 2 * (2 + 2 * (final(w).listed - old(w).listed)) && final(w).opens == old(w).opens + 1 && (r.is_ok() ==> r.unwrap().0@.len() <= final(w).listed - old(w).listed)'),
-            ('C07 C17:every-record-is-a-listed-regular-file-with-its-times',
+            ('C07 C17 C16:every-record-is-a-listed-regular-file-with-its-times',
              'r.is_ok() ==> records_ok(r.unwrap().0@, *old(w), pv(cache_dir)) && r.unwrap().1 >= r.unwrap().0@.len()'),
             ('C07:listing-is-complete-when-nothing-failed',
              'r.is_ok() && final(w).hard_faults == old(w).hard_faults ==> all_files_recorded(r.unwrap().0@, *old(w), pv(cache_dir))'),
@@ -654,7 +656,7 @@ pub proof fn lemma_restamped_prefix(old: World, a: World, b: World, mb: Seq<Cach
 }
 ''')
 
-    au = u.under_contract(u.item('src/raw_cache.rs', ['fn apply_update']), ['C07', 'C17', 'C02', 'C05', 'C06', 'C09', 'C18', 'C15'])
+    au = u.under_contract(u.item('src/raw_cache.rs', ['fn apply_update']), ['C07', 'C17', 'C02', 'C05', 'C06', 'C09', 'C18', 'C15', 'C16'])
     au.air = 'raw_cache::apply_update'
     au.add_param(W)
     au.add_arg('ensure_file_removed', TW)
@@ -666,7 +668,7 @@ pub proof fn lemma_restamped_prefix(old: World, a: World, b: World, mb: Seq<Cach
                    '&& evictable_records(update.to_evict@, pbv(parent)) && evictable_records(update.to_move_back@, pbv(parent))')],
         ensures=[
             INV, BOOK,
-            ('C07 C17 C02:maintenance-frame-on-every-exit', 'maint_frame(*old(w), *final(w), update.to_evict@, update.to_move_back@)'),
+            ('C07 C17 C02 C16:maintenance-frame-on-every-exit', 'maint_frame(*old(w), *final(w), update.to_evict@, update.to_move_back@)'),
             ('C07:plan-fully-applied', 'r.is_ok() && final(w).hard_faults == old(w).hard_faults ==> maint_done(*old(w), *final(w), update.to_evict@, update.to_move_back@)'),
             ('C06:linear-number-of-filesystem-calls', 'final(w).steps <= old(w).steps + 2 * (update.to_evict@.len() + update.to_move_back@.len()) && final(w).opens == old(w).opens && final(w).published == old(w).published && final(w).listed == old(w).listed'),
             ('C05 C18:error-is-a-real-fault', 'r.is_err() ==> final(w).hard_faults > old(w).hard_faults'),
@@ -681,7 +683,7 @@ pub proof fn lemma_restamped_prefix(old: World, a: World, b: World, mb: Seq<Cach
         ('', 'old(w).inv() && w.inv() && w.kept(*old(w)) && w.cache_dirs.contains(dir) && ev == update.to_evict@ && mb == update.to_move_back@'),
         ('', '0 <= k1 <= ev.len() && vstd::std_specs::iter::IteratorSpec::remaining(&kw_it1) == ev.skip(k1) && vstd::std_specs::iter::IteratorSpec::obeys_prophetic_iter_laws(&kw_it1)'),
         ('', '(forall|n: Seq<u8>| !w.under_ro(#[trigger] child(dir, n))) && evictable_records(ev, dir) && evictable_records(mb, dir)'),
-        ('C07 C17 C02:maintenance-frame-on-every-exit', 'maint_frame(*old(w), *w, ev, mb) && w.inodes == old(w).inodes && w.now == old(w).now'),
+        ('C07 C17 C02 C16:maintenance-frame-on-every-exit', 'maint_frame(*old(w), *w, ev, mb) && w.inodes == old(w).inodes && w.now == old(w).now'),
         ('C07:victims-so-far-are-gone', 'w.hard_faults == old(w).hard_faults ==> forall|i: int| 0 <= i < k1 ==> !w.files.contains_key(rpath(#[trigger] ev[i]))'),
         ('C06:linear-number-of-filesystem-calls', 'w.steps <= old(w).steps + 2 * (k1) && w.opens == old(w).opens && w.published == old(w).published && w.listed == old(w).listed'),
     ], ensures=[('', 'k1 == ev.len()')], decreases='ev.len() - k1')
@@ -702,7 +704,7 @@ pub proof fn lemma_restamped_prefix(old: World, a: World, b: World, mb: Seq<Cach
         ('', 'old(w).inv() && w.inv() && w.kept(*old(w)) && w.cache_dirs.contains(dir) && ev == update.to_evict@ && mb == update.to_move_back@'),
         ('', '0 <= k2 <= mb.len() && vstd::std_specs::iter::IteratorSpec::remaining(&kw_it2) == mb.skip(k2) && vstd::std_specs::iter::IteratorSpec::obeys_prophetic_iter_laws(&kw_it2)'),
         ('', '(forall|n: Seq<u8>| !w.under_ro(#[trigger] child(dir, n))) && evictable_records(ev, dir) && evictable_records(mb, dir)'),
-        ('C07 C17 C02:maintenance-frame-on-every-exit', 'maint_frame(*old(w), *w, ev, mb) && w.files == w1.files'),
+        ('C07 C17 C02 C16:maintenance-frame-on-every-exit', 'maint_frame(*old(w), *w, ev, mb) && w.files == w1.files'),
         ('C07:victims-so-far-are-gone', 'w.hard_faults == old(w).hard_faults ==> forall|i: int| 0 <= i < ev.len() ==> !w.files.contains_key(rpath(#[trigger] ev[i]))'),
         ('C07 C09:reprieved-so-far-are-restamped', 'w.hard_faults == old(w).hard_faults ==> prefix_restamped(*old(w), *w, mb, k2)'),
         ('C06:linear-number-of-filesystem-calls', 'w.steps <= old(w).steps + 2 * (ev.len() + k2) && w.opens == old(w).opens && w.published == old(w).published && w.listed == old(w).listed'),
@@ -846,7 +848,7 @@ pub open spec fn prune_exact(old: World, fin: World, dir: PathV, cap: nat, recs:
 }
 ''')
 
-    pr = u.under_contract(u.item('src/raw_cache.rs', ['fn prune']), ['C07', 'C17', 'C02', 'C05', 'C06', 'C09', 'C18', 'C15', 'C10', 'C11'])
+    pr = u.under_contract(u.item('src/raw_cache.rs', ['fn prune']), ['C07', 'C17', 'C02', 'C05', 'C06', 'C09', 'C18', 'C15', 'C10', 'C11', 'C16'])
     pr.air = 'raw_cache::prune'
     pr.add_param(W)
     pr.add_arg('collect_cached_files', TW)
@@ -857,7 +859,7 @@ pub open spec fn prune_exact(old: World, fin: World, dir: PathV, cap: nat, recs:
                    'old(w).cache_dirs.contains(pbv(cache_dir)) && (forall|n: Seq<u8>| !old(w).under_ro(#[trigger] child(pbv(cache_dir), n)))')],
         ensures=[
             INV, BOOK,
-            ('C17 C07 C02:only-evictable-files-of-this-directory-are-deleted-or-restamped', 'prune_frame(*old(w), *final(w), pbv(cache_dir))'),
+            ('C17 C07 C02 C16:only-evictable-files-of-this-directory-are-deleted-or-restamped', 'prune_frame(*old(w), *final(w), pbv(cache_dir))'),
             ('C07:exactly-the-second-chance-plan-is-applied',
              'r.is_ok() && final(w).hard_faults == old(w).hard_faults ==> exists|recs: Seq<CachedFile>, ev: Seq<CachedFile>, mb: Seq<CachedFile>| '
              '#[trigger] prune_exact(*old(w), *final(w), pbv(cache_dir), capacity as nat, recs, ev, mb) && r.unwrap().1 == ev.len() '
@@ -1073,6 +1075,7 @@ pub open spec fn value_ready(w: World, value: PathV, base: PathV, name: Seq<u8>)
     &&& w.files.contains_key(value) ==> {
         &&& w.supplied.contains((name, w.inode_at(value).content))
         &&& (w.must_sync ==> w.inode_at(value).synced)
+        &&& !w.inode_at(value).flush_failed
         &&& forall|q: PathV| #[trigger] w.files.contains_key(q) && w.files[q] == w.files[value] ==> !w.in_cache_namespace(q)
     }
 }
@@ -1371,7 +1374,7 @@ pub open spec fn write_frame(old: World, fin: World, base: PathV, name: Seq<u8>,
     dc.contract(
         requires=[('', 'old(w).inv() && (self.spec_temp() == child(self.spec_base(), temp_name()) && old(w).cache_dirs.contains(self.spec_base()) && !old(w).under_ro(self.spec_base()) && !old(w).under_ro(self.spec_temp()) && (forall|n: Seq<u8>| !old(w).under_ro(#[trigger] child(self.spec_base(), n))) && (forall|n: Seq<u8>| !old(w).under_ro(#[trigger] child(self.spec_temp(), n)))) && pbv(base_dir) == self.spec_base()')],
         ensures=[INV, ('', 'final(w).kept(*old(w))'),
-                 ('C17 C07 C02:maintenance-deletes-only-evictable-entries-and-stale-temporary-files', 'cleanup_frame(*old(w), *final(w), self.spec_base())'),
+                 ('C17 C07 C02 C16:maintenance-deletes-only-evictable-entries-and-stale-temporary-files', 'cleanup_frame(*old(w), *final(w), self.spec_base())'),
                  ('C02:debris-older-than-the-age-limit-is-removed-when-no-call-fails',
                   'r.is_ok() && final(w).hard_faults == old(w).hard_faults && old(w).dirs.contains(self.spec_base()) && old(w).dirs.contains(self.spec_temp()) && final(w).now >= temp_age_ns() '
                   '==> no_stale_temp(*final(w), self.spec_temp(), final(w).now)'),
@@ -1396,7 +1399,7 @@ pub open spec fn write_frame(old: World, fin: World, base: PathV, name: Seq<u8>,
                   'observe_step(old(w).counter, self.spec_trigger().spec_scale(), !(r == Ok::<Option<u64>, Error>(None)), final(w).counter)'),
                  ('C20 C06 C10:no-filesystem-call-unless-the-trigger-fires',
                   'r == Ok::<Option<u64>, Error>(None) ==> *final(w) == (World { counter: final(w).counter, ..*old(w) })'),
-                 ('C17 C07 C02:maintenance-deletes-only-evictable-entries-and-stale-temporary-files', 'cleanup_frame(*old(w), *final(w), self.spec_base())'),
+                 ('C17 C07 C02 C16:maintenance-deletes-only-evictable-entries-and-stale-temporary-files', 'cleanup_frame(*old(w), *final(w), self.spec_base())'),
                  ('C06:linear-in-the-number-of-directory-entries', 'final(w).steps <= old(w).steps + 2 * (4 + 3 * (final(w).listed - old(w).listed)) && final(w).opens <= old(w).opens + 2'),
                  ('C05 C18:error-is-a-real-fault', 'r.is_err() ==> final(w).hard_faults > old(w).hard_faults')])
     mc.body_start('proof { lemma_cleanup_frame_same(*old(w), self.spec_base()); }')
@@ -1408,7 +1411,7 @@ pub open spec fn write_frame(old: World, fin: World, base: PathV, name: Seq<u8>,
     mt.contract(
         requires=[('', 'old(w).inv() && (self.spec_temp() == child(self.spec_base(), temp_name()) && old(w).cache_dirs.contains(self.spec_base()) && !old(w).under_ro(self.spec_base()) && !old(w).under_ro(self.spec_temp()) && (forall|n: Seq<u8>| !old(w).under_ro(#[trigger] child(self.spec_base(), n))) && (forall|n: Seq<u8>| !old(w).under_ro(#[trigger] child(self.spec_temp(), n))))')],
         ensures=[INV, ('', 'final(w).kept(*old(w))'),
-                 ('C17 C07 C02:maintenance-deletes-only-evictable-entries-and-stale-temporary-files', 'cleanup_frame(*old(w), *final(w), self.spec_base())'),
+                 ('C17 C07 C02 C16:maintenance-deletes-only-evictable-entries-and-stale-temporary-files', 'cleanup_frame(*old(w), *final(w), self.spec_base())'),
                  ('C02:debris-older-than-the-age-limit-is-removed-when-no-call-fails',
                   'r.is_ok() && final(w).hard_faults == old(w).hard_faults && old(w).dirs.contains(self.spec_base()) && old(w).dirs.contains(self.spec_temp()) && final(w).now >= temp_age_ns() '
                   '==> no_stale_temp(*final(w), self.spec_temp(), final(w).now)'),
@@ -1437,6 +1440,8 @@ pub open spec fn write_frame(old: World, fin: World, base: PathV, name: Seq<u8>,
                  '!first_byte_ok(str_bytes(name)) || str_bytes(name).contains(0x2fu8) ==> r.is_err() && err_kind(err_of(r)) == ErrorKind::InvalidInput && *final(w) == *old(w)'),
                 ('C10:maintenance-precedes-the-insertion-and-runs-iff-the-trigger-fires',
                  'r.is_ok() ==> observe_step(old(w).counter, self.spec_trigger().spec_scale(), r.unwrap().is_some(), final(w).counter)'),
+                ('C10:maintenance-never-runs-after-the-write-has-published-its-file',
+                 'final(w).published > old(w).published ==> final(w).pub_listed == final(w).listed'),
                 ('C06 C20:constant-number-of-filesystem-calls-outside-maintenance',
                  'r.is_ok() && r.unwrap().is_none() ==> final(w).steps <= old(w).steps + 2 * (%d) && final(w).opens == old(w).opens && final(w).listed == old(w).listed' % nsteps),
                 ('C06:linear-in-the-number-of-directory-entries-with-maintenance',
